@@ -38,7 +38,10 @@ def run_check(prop, tier, seed, audit=True):
     try:
         ctx = Ctx(prop, tier, seed)
         explanation, assumptions = mod.check(ctx)
-        if ctx.thorough and audit and not ctx.run.findings and os.environ.get('VERIF_NO_AUDIT') != '1':
+        from .report import load_known, match_known
+        known = load_known()
+        unlisted = [f for f in ctx.run.findings if match_known(known, f) is None]
+        if ctx.thorough and audit and not unlisted and os.environ.get('VERIF_NO_AUDIT') != '1':
             try:
                 from . import audit as auditmod
                 ctx.run.audit = auditmod.audit_property(prop)
